@@ -23,6 +23,19 @@ import (
 
 var sigquit = syscall.SIGQUIT
 
+// CPUSeconds reports the CPU time (user+system) used by this process and by
+// its terminated children (workers, Python driver).
+func CPUSeconds() (self, children float64) {
+	var ru syscall.Rusage
+	if syscall.Getrusage(syscall.RUSAGE_SELF, &ru) == nil {
+		self = float64(ru.Utime.Sec+ru.Stime.Sec) + float64(ru.Utime.Usec+ru.Stime.Usec)/1e6
+	}
+	if syscall.Getrusage(syscall.RUSAGE_CHILDREN, &ru) == nil {
+		children = float64(ru.Utime.Sec+ru.Stime.Sec) + float64(ru.Utime.Usec+ru.Stime.Usec)/1e6
+	}
+	return
+}
+
 // The code under test may panic on a goroutine of its own (which kills the
 // process) or hang. Every call into it is therefore made in a worker: the same
 // test binary re-executed with -test.run '^TestVerifC10Worker$', talking gob
@@ -188,7 +201,11 @@ func NewWorker(testName string) *Worker {
 }
 
 func (w *Worker) start() error {
-	cmd := exec.Command(os.Args[0], "-test.run", "^"+w.testName+"$", "-test.timeout", "0")
+	args := []string{"-test.run", "^" + w.testName + "$", "-test.timeout", "0"}
+	if prof := os.Getenv("VERIF_C10_WORKER_PROF"); prof != "" {
+		args = append(args, "-test.cpuprofile", fmt.Sprintf("%s.%d", prof, w.Spawns)) // debugging aid
+	}
+	cmd := exec.Command(os.Args[0], args...)
 	env := []string{"VERIF_C10_WORKER=1", "GOTRACEBACK=single"}
 	for _, e := range os.Environ() {
 		if strings.HasPrefix(e, "VERIF_OUT=") || strings.HasPrefix(e, "VERIF_BATCH=") || strings.HasPrefix(e, "GOTRACEBACK=") || strings.HasPrefix(e, "VERIF_C10_WORKER=") {
